@@ -173,3 +173,35 @@ package hevc
 //@   loop 8: invariant 0 <= i && i <= int(ps.Num_positive_pics) && int(ps.Num_positive_pics) <= 16 && int(ps.Num_negative_pics) <= 16 && okRef(ps, ref, sps, st_rps_idx, num_delta_pocs)
 //@   loop 8: decreases int(ps.Num_positive_pics) - i
 //@   ensures err == nil ==> int(ps.Num_negative_pics) <= 16 && int(ps.Num_positive_pics) <= 16
+
+// ---- VPS: memory proportional to the standard's limits (hostile parameter sets, C07) -------------------------------------
+// vps_num_layer_sets_minus1 is at most 1023 and vps_num_hrd_parameters at most vps_num_layer_sets_minus1 + 1 (F.7.4.3.1):
+// a successful Decode never allocates more than 1024 layer sets / HRD parameter structures (each several KB); a VPS without
+// HRD parameters leaves the slices it was given
+//@ func (hrd *H265RawHRDParameters) decode(r *bits.Reader, common_inf_present_flag bool, max_num_sub_layers_minus1 int) (err error)
+//@   trusted
+//@   panics
+//@   requires hrd != nil && r != nil
+//@   modifies *hrd, *r
+//@ extern func (r *bits.Reader) Skip(n int) ()
+//@   panics
+//@   requires r != nil
+//@   modifies *r
+//@ func (vps *H265RawVPS) Decode(data []byte) (err error)
+//@   recovers
+//@   requires vps != nil
+//@   modifies all()
+//@   local r *bits.Reader
+//@   loop 0: modifies vps.Vps_max_dec_pic_buffering_minus1[:], vps.Vps_max_num_reorder_pics[:], vps.Vps_max_latency_increase_plus1[:], *r
+//@   loop 0: invariant vps == old(vps) && r != nil
+//@   loop 1: modifies vps.Vps_max_dec_pic_buffering_minus1[:], vps.Vps_max_num_reorder_pics[:], vps.Vps_max_latency_increase_plus1[:]
+//@   loop 1: invariant vps == old(vps) && r != nil
+//@   loop 2: modifies vps.Layer_id_included_flag[:], *r
+//@   loop 2: invariant vps == old(vps) && r != nil && len(vps.Layer_id_included_flag) <= 1024
+//@   loop 3: modifies vps.Layer_id_included_flag[:], *r
+//@   loop 3: invariant vps == old(vps) && r != nil && len(vps.Layer_id_included_flag) <= 1024
+//@   loop 4: modifies vps.Layer_id_included_flag[:]
+//@   loop 4: invariant vps == old(vps) && r != nil && len(vps.Layer_id_included_flag) <= 1024
+//@   loop 5: modifies vps.Hrd_layer_set_idx[:], vps.Cprms_present_flag[:], vps.Hrd_parameters[:], *r, err
+//@   loop 5: invariant vps == old(vps) && r != nil && len(vps.Layer_id_included_flag) <= 1024 && (len(vps.Hrd_parameters) <= 1024 || sameHdr(vps.Hrd_parameters, old(vps.Hrd_parameters))) && (len(vps.Hrd_layer_set_idx) <= 1024 || sameHdr(vps.Hrd_layer_set_idx, old(vps.Hrd_layer_set_idx))) && (len(vps.Cprms_present_flag) <= 1024 || sameHdr(vps.Cprms_present_flag, old(vps.Cprms_present_flag)))
+//@   ensures err == nil ==> len(vps.Layer_id_included_flag) <= 1024 && (len(vps.Hrd_parameters) <= 1024 || sameHdr(vps.Hrd_parameters, old(vps.Hrd_parameters))) && (len(vps.Hrd_layer_set_idx) <= 1024 || sameHdr(vps.Hrd_layer_set_idx, old(vps.Hrd_layer_set_idx))) && (len(vps.Cprms_present_flag) <= 1024 || sameHdr(vps.Cprms_present_flag, old(vps.Cprms_present_flag)))
